@@ -135,7 +135,11 @@ def collect(ctx, results, props):
 
 
 def run_lifecycle(ctx, props, what):
-    model_check(ctx, QUICK_CFGS[ctx.pid] if ctx.quick() else THOROUGH_CFGS)
+    # thorough: C06 takes the cause families (which event fires how often), C07 the all-faults teardown and the
+    # reconnect configurations (completion, no leak, fresh next connection); both keep the quick configurations
+    rc = [c for c in THOROUGH_CFGS if "_rc" in c]
+    tcfgs = [c for c in THOROUGH_CFGS if c not in rc] if ctx.pid == "C06" else [c for c in THOROUGH_CFGS if "_q_" in c or "_rc" in c or "teardown_full" in c]
+    model_check(ctx, QUICK_CFGS[ctx.pid] if ctx.quick() else tcfgs)
     sens = sensitivity(ctx) if (ctx.pid == "C07" or not ctx.quick()) else {}
     tier = "quick" if ctx.quick() else "thorough"
     results, qcap, traces = scenarios(ctx, tier, ctx.subdir("conn-traces"))
